@@ -247,6 +247,10 @@ def run_case(case: dict) -> Result:
     bad = check_unique(root, True, 'after parse')
     if bad:
         return _done(res.bad('unique:' + bad[0], bad[1]), classes)
+    inv = O.invariants(root)
+    if inv:
+        # an owner must contain what it owns: a comment claimed by a list of a model that does not enclose it breaks the nesting of spans
+        return _done(res.bad(f'owner-does-not-enclose:{inv[0][0]}', f'after default parsing of {text!r}: {inv[:3]}'), classes)
     for dev in check_rules(root, classes):
         if not any(b == dev[0] for b, _ in res.violations):
             res.bad(*dev)
